@@ -219,7 +219,7 @@ PROPS = {
     },
     "C18": {
         "level": EXPL,
-        "plan": [{"engine": "hubnet", "perturb": True, "perturb_mode": "sleep", "perturb_scale": 1.0, "perturb_focus": "HandleShipHandshakeStateUpdate", "timeout": {"quick": 900, "thorough": 5400}, "shards": 12}],
+        "plan": [{"engine": "hubnet", "perturb": True, "perturb_mode": "sleep", "perturb_scale": 1.0, "perturb_focus": "HandleShipHandshakeStateUpdate,ServeHTTP,registerConnection", "perturb_focus_max_us": 12000, "timeout": {"quick": 900, "thorough": 5400}, "shards": 12}],
         "rule": "real hub pairs (see C05) through success, reconnects, disconnects, restarts; at the settled point (900 ms after convergence, > the 500 ms notification delay) the state of the last "
                 "ServicePairingDetailUpdate per SKI must equal PairingDetailForSki; distinct = delivered notification sequences",
         "floors": {"evaluations": 30, "classes": 20},
